@@ -25,3 +25,26 @@ pub fn pipe_ts(sources: Vec<String>) -> Result<CompileResult, CompilerError> {
 pub fn render(e: &CompilerError, src: &str) -> (String, String) {
     (e.to_string(), e.contextualize(src))
 }
+
+/// Two compilers are SET UP first and run afterwards (C11: the result of a compilation does not depend on other
+/// compilers that exist in the process)
+pub fn pipe_rasn_pair(
+    c1: RasnConfig,
+    s1: Vec<String>,
+    c2: RasnConfig,
+    s2: Vec<String>,
+) -> (Result<CompileResult, CompilerError>, Result<CompileResult, CompilerError>) {
+    fn build(config: RasnConfig, sources: Vec<String>) -> Compiler<RasnBackend, rasn_compiler::CompilerSourcesSet> {
+        let mut it = sources.into_iter();
+        let mut c = Compiler::<RasnBackend, _>::new_with_config(config).add_asn_literal(it.next().unwrap_or_default());
+        for s in it {
+            c = c.add_asn_literal(s);
+        }
+        c
+    }
+    let a = build(c1, s1);
+    let b = build(c2, s2);
+    let ra = a.compile_to_string();
+    let rb = b.compile_to_string();
+    (ra, rb)
+}
